@@ -58,20 +58,13 @@ structure Coord where
   seen     : List (Bytes × Bool)  -- recorded IsPending answers: key ↦ (pending ∨ error)
 
 def coordOf (j impl : Json) : R Coord := do
+  -- `impl` = the object carrying the recorded `seen` answers (the case's impl, or one observation point)
   let strs (k : String) : R (List Bytes) := do pure ((← listOf asStr (fieldD j k .null)).map strBytes)
   let perf ← listOf (fun p => do pure (strBytes (← strF p "key"))) (fieldD j "performs" .null)
   let seen ← listOf (fun s => do
     pure (strBytes (← strF s "key"), (← boolF s "pending") || (← boolF s "err"))) (fieldD impl "seen" .null)
   pure { real := (← strF j "kind") == "real", pendIds := ← strs "pendIds", errIds := ← strs "errIds",
          accepted := ← strs "accepted", performs := perf, seen := seen }
-
-/-- the coordinator's predicate: programmable coordinator → from the input sets (a key that does not
-split is not pending); real coordinator → its recorded answers -/
-def Coord.pend (c : Coord) (k : Bytes) : Bool :=
-  if c.real then (c.seen.lookup k).getD false
-  else match splitKey k with
-    | some (_, id) => c.pendIds.contains id || c.errIds.contains id
-    | none => false
 
 /-- identifiers known to be in flight, independently of the recorded answers -/
 def Coord.inflight (c : Coord) : List Bytes :=
@@ -80,6 +73,20 @@ def Coord.inflight (c : Coord) : List Bytes :=
     let performed := c.performs.filterMap idOf
     (c.accepted.filterMap idOf).filter fun id => !performed.contains id
   else c.pendIds ++ c.errIds
+
+/-- the coordinator's predicate: programmable coordinator → from the input sets (a key that does not
+split is not pending); real coordinator → its recorded answer for that key, and for a key it was never
+asked about (the implementation built other keys than the model) the independent in-flight rule -/
+def Coord.pend (c : Coord) (k : Bytes) : Bool :=
+  if c.real then
+    match c.seen.lookup k with
+    | some b => b
+    | none => match splitKey k with
+      | some (_, id) => c.inflight.contains id
+      | none => true
+  else match splitKey k with
+    | some (_, id) => c.pendIds.contains id || c.errIds.contains id
+    | none => false
 
 def statusOf (s : String) : R Status :=
   match s with
@@ -90,12 +97,13 @@ def statusOf (s : String) : R Status :=
   | "errRunner" => pure .errRunner
   | "errTooManyResults" => pure .errTooManyResults
   | "errEncode" => pure .errEncode
+  | "panic" => pure .panicked
   | _ => throw s!"unmodelled status {s}"
 
 def Status.name : Status → String
   | .report => "report" | .noReport => "noReport" | .errNotEnoughInputs => "errNotEnoughInputs"
   | .errTooManyErrors => "errTooManyErrors" | .errRunner => "errRunner"
-  | .errTooManyResults => "errTooManyResults" | .errEncode => "errEncode"
+  | .errTooManyResults => "errTooManyResults" | .errEncode => "errEncode" | .panicked => "panic"
 
 def showOut (o : Out) : String :=
   s!"{o.status.name} checked={o.checked.map showBytes} performed={o.performed.map fun r => (r.seq, showBytes r.key)}"
@@ -147,6 +155,13 @@ def handleReport (input impl : Json) : R Reply := do
     (if attr.any (fun o => match o with | some ob => !validObs ob | none => false) then ["invalid-observation"] else []) ++
     (if valid.any (fun ob => decide (ob.ids.length > Gen.v2ObservationUpkeepsLimit)) then ["oversized-id-list"] else []) ++
     (if valid.length ≥ 2 && valid.length % 2 == 0 then ["even-median"] else []) ++
+    (let numeric := attr.filterMap fun o => match o with
+        | some ob => if canonDec ob.block then some (decVal ob.block) else none
+        | none => none
+     if !valid.isEmpty && median numeric != median (validBlocks attr) then ["invalid-would-move-median"] else []) ++
+    (if !valid.isEmpty && attr.any (fun o => match o with
+        | some ob => !validObs ob && !canonDec ob.block
+        | none => false) then ["invalid-non-numeric-block-among-valid"] else []) ++
     (if decide (uniq.length > Gen.v2ReportKeysLimit) then ["cut-to-ten"] else []) ++
     (if decide (allKeys.length > (allKeys.filter (fun k => !pend k)).length) then ["pending-removed"] else []) ++
     (if !decide (allKeys.filter (fun k => !pend k)).Nodup then ["duplicates-removed"] else []) ++
@@ -173,18 +188,42 @@ def headResOf (j : Json) : R HeadRes := do
   pure { key := strBytes (← strF j "key"), eligible := ← boolF j "eligible", eligErr := ← boolF j "eligErr",
          detailErr := ← boolF j "detailErr" }
 
-def headOf (j : Json) : R Head := do
-  pure { block := strBytes (← strF j "block"), active := ← natF j "active", srcErr := ← boolF j "srcErr",
-         runErr := ← boolF j "runErr", results := ← listF headResOf j "results" }
+/-- a head together with the harness's observation points around it: `midAt` (k ≥ 1: Observation() is
+called inside the k-th `Eligible` call of this head; 0: not) and `after` -/
+structure HeadPts where
+  head  : Head
+  midAt : Nat
+  after : Bool
 
-def handleObs (input impl : Json) : R Reply := do
-  let heads ← listOf headOf (fieldD input "heads" .null)
-  let coord ← coordOf (← field input "coord") impl
-  let out ← hexBytes (← strF impl "out")
-  let outErr ← strF impl "outErr"
-  let dec ← decOf? (← field impl "outDec")
-  let setup := (fieldD impl "setup" (.str "")).getStr?.toOption.getD ""
-  let st := heads.foldl processHead {}
+def headOf (j : Json) : R HeadPts := do
+  let block ← strF j "block"
+  let active ← natF j "active"
+  let srcErr ← boolF j "srcErr"
+  let runErr ← boolF j "runErr"
+  let results ← listF headResOf j "results"
+  let midAt ← asNat (fieldD j "midAt" (.num 0))
+  let aft ← asBool (fieldD j "after" (.bool false))
+  pure ⟨⟨strBytes block, active, srcErr, runErr, results⟩, midAt, aft⟩
+
+/-- verdict on one Observation() call -/
+structure PointVerdict where
+  agree : Bool
+  specModel : Bool
+  specImpl : Bool
+  diff : String
+  fail : String
+  tags : List String
+
+def handlePoint (hps : List HeadPts) (coordJ pt : Json) : R PointVerdict := do
+  let heads := hps.map (·.head)
+  let n ← natF pt "n"
+  let phase ← strF pt "phase"
+  let coord ← coordOf coordJ pt
+  let out ← hexBytes (← strF pt "out")
+  let outErr ← strF pt "outErr"
+  let dec ← decOf? (← field pt "outDec")
+  -- the stager the model says `Observe` reads at this point (for "mid": head n is in progress)
+  let st := stagerAt heads n
   let pend := coord.pend
   let allowed := (observe pend st).2
   -- the keyed shuffle is a parameter: any staged, not-pending identifier may come first
@@ -199,14 +238,15 @@ def handleObs (input impl : Json) : R Reply := do
   let decBad := match hit, dec with
     | some (ids, _), some (b, dids) => !(b == st.block && dids == ids)
     | _, _ => false
-  let agree := hit.isSome && outErr.isEmpty && !strictBad && !decBad && setup.isEmpty
+  let agree := hit.isSome && outErr.isEmpty && !strictBad && !decBad
   let wantOut := match hit with
     | some (_, b) => b
     | none => (modelOuts.head?.map (·.2)).getD []
   let sm := specObservation st pend wantOut (decodeObs wantOut)
-  let si := specObservation st pend out dec
+  let si := outErr != "panic" && specObservation st pend out dec
+  let inProgress := hps[n]?
   let tags :=
-    (if coord.real then ["coord=real"] else ["coord=fake"]) ++
+    [s!"point={phase}"] ++
     (if inDomain st then ["in-domain"] else ["out-of-domain"]) ++
     (if st.ids.isEmpty then ["nothing-staged"] else []) ++
     (if decide (allowed.length < st.ids.length) then ["in-flight-filtered"] else []) ++
@@ -215,15 +255,54 @@ def handleObs (input impl : Json) : R Reply := do
     (if out.isEmpty then ["empty-observation-bytes"] else []) ++
     (if decide (out.length > Gen.v2MaxObservationLength) then ["over-length"] else []) ++
     (if strict.isSome then ["strict-decodes"] else []) ++
-    (if heads.any (fun h => h.srcErr || h.runErr || h.active == 0) then ["unsampled-head"] else [])
+    (match phase, inProgress with
+     | "mid", some h =>
+       let stagedSoFar := stageIds (h.head.results.take (h.midAt - 1))
+       (if !stagedSoFar.isEmpty then ["mid:next-head-partly-staged"] else []) ++
+       (if !stagedSoFar.isEmpty && !st.ids.isEmpty && stagedSoFar.any (fun x => !st.ids.contains x)
+        then ["mid:staged-id-not-eligible-at-current-block"] else [])
+     | _, _ => [])
   pure { agree := agree, specModel := sm, specImpl := si,
          diff := if agree then "" else
-           (if !setup.isEmpty then s!"harness: {setup}; " else "") ++
+           s!"point n={n} {phase}: " ++
            (if strictBad then "strict decoder ≠ encoding/json; " else "") ++
            (if decBad then "decoded observation ≠ staged block / chosen id; " else "") ++
            s!"impl out={showBytes out} err={outErr} model candidates={modelOuts.map fun (_, b) => showBytes b}",
-         fail := if si then "" else explainObservation st pend out dec,
-         nontrivial := !st.ids.isEmpty,
+         fail := if si then "" else
+           if outErr == "panic" then s!"observation: panic in Observation (point n={n} {phase})"
+           else explainObservation st pend out dec ++ s!" (point n={n} {phase})",
+         tags := tags }
+
+def handleObs (input impl : Json) : R Reply := do
+  let hps ← listOf headOf (fieldD input "heads" .null)
+  let heads := hps.map (·.head)
+  let coordJ ← field input "coord"
+  let setup := (fieldD impl "setup" (.str "")).getStr?.toOption.getD ""
+  let pts ← asList (fieldD impl "points" .null)
+  let vs ← pts.mapM (handlePoint hps coordJ)
+  -- which Observation() calls the model expects: mid-head calls only when the gated `Eligible` call is reached
+  let expected : List (Nat × String) :=
+    (hps.zipIdx.flatMap fun (h, i) =>
+      (if h.midAt ≥ 1 && headSampled h.head && decide (h.midAt ≤ h.head.results.length) then [(i, "mid")] else []) ++
+      (if h.after then [(i + 1, "after")] else [])) ++ [(heads.length, "final")]
+  let got ← pts.mapM fun pt => do pure ((← natF pt "n"), (← strF pt "phase"))
+  let pointsOk := decide (expected = got)
+  let coord ← coordOf coordJ (Json.mkObj [])
+  let agree := vs.all (·.agree) && pointsOk && setup.isEmpty
+  let firstBad := vs.find? fun v => !v.specImpl
+  let st := heads.foldl processHead {}
+  let tags := (vs.flatMap (·.tags)).eraseDups ++
+    (if coord.real then ["coord=real"] else ["coord=fake"]) ++
+    (if heads.any (fun h => !headSampled h) then ["unsampled-head"] else [])
+  pure { agree := agree, specModel := vs.all (·.specModel), specImpl := firstBad.isNone,
+         diff := if agree then "" else
+           (if !setup.isEmpty then s!"harness: {setup}; " else "") ++
+           (if !pointsOk then s!"observation points: expected {expected} got {got}; " else "") ++
+           String.intercalate " | " ((vs.filter (!·.agree)).map (·.diff)),
+         fail := match firstBad with
+           | some v => v.fail
+           | none => "",
+         nontrivial := !st.ids.isEmpty || vs.any (fun v => v.tags.contains "mid:next-head-partly-staged"),
          tags := tags }
 
 def handle (input impl : Json) : R Reply := do
